@@ -633,6 +633,7 @@ def cli_child(repo, runs, conn, probes_of):
         r = o_name(self, system)
         cap.setdefault('events', []).append(event_name(self.deduplicate, self.molname) if self.meta_key == 'moltype'
                                             else 'name-under-%r' % (self.meta_key,))
+        cap['names_last'] = [m.meta.get('moltype') for m in system.molecules]
         if 'network' in cap['events'] and system is cap.get('system'):
             cap['names_after'] = [m.meta.get('moltype') for m in system.molecules]
             if not cap['finish']:
@@ -672,7 +673,7 @@ def cli_child(repo, runs, conn, probes_of):
         res = {'extra': extra, 'outcome': outcome, 'stderr': text, 'merged': cap.get('merged', 0),
                'n_before_merge': cap.get('n_before_merge'), 'n_rb_calls': cap.get('n_rb_calls', 0),
                'mols': cap.get('mols'), 'exc': cap.get('exc'), 'warnings': cap.get('warnings'),
-               'names_after': cap.get('names_after')}
+               'names_after': cap.get('names_after'), 'names_last': cap.get('names_last')}
         evs = list(cap.get('events', []))
         while evs and evs[0].startswith('name'):
             evs.pop(0)                  # the naming that precedes the block
